@@ -42,11 +42,25 @@ ASSUMPTIONS = [
     'RapidJSON is absent: Form JSON goes through the clean-room substitute impl/rapidjson_shim',
     'little-endian 64-bit non-Windows dtype_to_format branch; float16/float128/complex/datetime forms are exercised '
     'through Form JSON only (the layout generator has the eleven core dtypes)',
-    'Form::equal, form keys and Identities are checked on the implementation side only (no layout in the core model '
-    'carries them); the model sees such layouts through the implementation\'s own form JSON',
+    'Form::equal (every check on, compatibility_check off, as Form.__eq__), form keys and Identities are checked on the '
+    'implementation side only (no layout in the core model carries them); the model sees such layouts through the '
+    'implementation\'s own form JSON; Form::equal is skipped for records with a repeated field name (it looks fields '
+    'up by name and is not reflexive there)',
+    'Form -> JSON -> Form is required only of forms of existing node classes (model predicate form_wf, hypothesis of '
+    'theorem form_json_roundtrip); on all other forms (ListForm with starts != stops, u32/i8 IndexedOptionForm, union '
+    'tags != i8, non-primitive or inconsistent NumpyForm fields, sizes beyond int32) the implementation and the model '
+    'must fail or succeed alike, which is checked and counted (roundtrip_outside_fragment)',
+    'the model implements the copyjson behaviour after the fix of io/json.cpp (numbers in parameters are copied '
+    'faithfully); corpus/C17/forms.case keeps the reproducers',
     'src/python/types.cpp (pybind11) cannot be built: the Lark parser is run against stand-in classes with the same '
-    'constructor signatures whose __str__ re-implements the C++ printers; parameters dicts are printed compactly',
+    'constructor signatures whose __str__ re-implements the C++ printers; parameters dicts are printed compactly; a type '
+    'string counts as brought back if low-level or high-level mode returns a type that prints identically and contains '
+    'no ArrayType; strings printed through a user-defined typestr are not sent (from_datashape cannot know them)',
+    'the model\'s type_parse covers the fragment `printable` (theorem type_print_parse_roundtrip): no parameters= forms, '
+    'no categorical[...]; on the other strings only "prints back identically when it parses" is checked',
     'element typing is checked for the first 8 and the last element; range slices for 9 (start, stop) pairs',
+    'validityerror is not called on layouts with __array__ = "categorical" (its is_unique check is outside this '
+    'property and has a memory-safety defect of its own, reported under C12)',
     'a zero-dimensional NumpyArray (what getitem_at returns for 1-d data) has no form/type (Content::form reads past '
     'the empty shape): scalars are reported by dtype',
 ]
@@ -655,11 +669,14 @@ def form_signature(text):
                                  'form-roundtrip-inconsistent-itemsize')
                 if cls == 'RegularArray' and isinstance(x.get('size'), int) and not (-2 ** 31 <= x['size'] < 2 ** 31):
                     sigs.add('form-roundtrip-size-beyond-int32')
-            for y in x.values():
-                walk(y)
+            for k, y in x.items():
+                if k != 'parameters':
+                    walk(y)
         elif isinstance(x, list):
             for y in x:
                 walk(y)
+        elif x == 'unknown':
+            sigs.add('form-roundtrip-nonprimitive-format')     # a plain NumpyForm of a non-primitive format prints as "unknown"
     walk(v)
     if len(sigs) == 1:
         return sigs.pop()
